@@ -22,7 +22,11 @@ EXPLANATION = (
     "entered only on an Err edge or is a closure handed to map_err, exit(0) occurs only in the --ast branch and normal "
     "completion returns from main; (4) no panic — unwrap/expect/panic sites in the CLI are inventoried: unwraps after a "
     "diverging map_err closure, the guarded as_string().unwrap(), and value_of(\"expression\").unwrap() under clap's "
-    "required + mutual conflicts_with rows are discharged; the remaining panics need a failing stdout/stderr."
+    "required + mutual conflicts_with rows are discharged; the remaining panics need a failing stdout/stderr; (5) the library "
+    "code jp runs cannot panic either: the C05 panic-site inventory and proof rules are evaluated over everything reachable from "
+    "compile / search / from_json plus the rendering code the CLI reaches through formatting (Display of JmespathError and of its "
+    "parts, Debug of the tree for --ast, Serialize of the result), incl. loop progress of the rendering code; Variable::from_json "
+    "is serde_json's complete-text parse (nothing may follow the JSON value)."
 )
 ASSUMPTIONS = [
     "clap 2: an argument declared required(true) and conflicts_with(other) is present whenever `other` is absent, or clap exits itself",
@@ -39,6 +43,7 @@ def run(ctx):
     ctx.attempt("check_ast", check_ast, ctx, jp)
     ctx.attempt("check_failure", check_failure, ctx, jp)
     ctx.attempt("check_panics", check_panics, ctx, jp)
+    ctx.attempt("check_library_panics", check_library_panics, ctx, jp)
 
 
 def value_of(name):
@@ -107,6 +112,9 @@ def check_delegation(ctx, jp):
             ret = go.of_local(0)
             ok = ok and all(x[0] == "call" and x[1] == "jmespath::Variable::from_json" for x in ret if x[0] == "call" and x[1].startswith("jmespath::"))
         ctx.check(ok, rule, "get_json", "the JSON text is the named file's contents or all of stdin, handed unchanged to Variable::from_json, whose value is returned", g.span)
+        # the whole input text must be one JSON value (otherwise jp would answer for a prefix of its input): library side, shared with C08
+        from .c08 import check_from_json
+        check_from_json(ctx, ctx.lib("default"), rule)
         br = Branches(g, go)
         sb, ve = br.first_variant_switch("std::option::Option", lambda s: s == {("param", 1)})
         ok = ve is not None
@@ -369,6 +377,57 @@ def check_panics(ctx, jp):
                 n += 1
                 ctx.bad(rule, f"{b.deff}:index", f"{b.deff}: indexing in the CLI has no discharge rule", t["span"]["s"])
     ctx.floor(rule, n, 10, "panic-capable sites in the CLI")
+
+
+def check_library_panics(ctx, jp):
+    """`jp` never panics only if the library code it runs never does: everything reachable from compile / search /
+    from_json (the C05 inventory and proof rules, evaluated here) plus the rendering code the CLI invokes through
+    format machinery — Display of the error it prints, Debug of the tree for --ast, Serialize of the result."""
+    from ..effects import reachable_bodies
+    from .c05 import State
+    rule = "no-panic-library"
+    lib = ctx.lib("default")
+    cg, reach = reachable_bodies(lib)
+    wanted = set()
+    for b in jp.fn_bodies():
+        for _, t in b.calls():
+            for self_ty, tr in t.get("obligations", []) + t.get("resolved_obligations", []):
+                if tr in ("std::fmt::Display", "std::fmt::Debug", "serde_core::ser::Serialize", "serde::Serialize") and "jmespath::" in self_ty:
+                    last = re.sub(r"[<>&' ]|std::rc::Rc|std::sync::Arc", "", self_ty).split("::")[-1]
+                    wanted.add((last, tr.split("::")[-1]))
+    roots = []
+    for d, b in cg.nodes.items():
+        tr = (b.impl_trait or "").split("::")[-1]
+        st = re.sub(r"<.*>", "", b.impl_self or "").split("::")[-1]
+        if (st, tr) in wanted:
+            roots.append(d)
+    ctx.check(len(roots) >= 3 and any("JmespathError" in r for r in roots), rule, "rendering-roots",
+              f"rendering entry points the CLI reaches through formatting: {sorted(roots)}")
+    # nested Display/Debug of the error's parts are reached through formatting obligations inside those bodies
+    extra = cg.reachable_from(roots)
+    more = True
+    while more:
+        more = False
+        for d in sorted(extra):
+            b = cg.nodes.get(d)
+            if b is None:
+                continue
+            for _, t in b.calls():
+                for self_ty, tr in t.get("obligations", []) + t.get("resolved_obligations", []):
+                    if tr in ("std::fmt::Display", "std::fmt::Debug"):
+                        for d2, b2 in cg.nodes.items():
+                            if d2 not in extra and (b2.impl_trait or "") == tr and (b2.impl_self or "") and \
+                                    re.sub(r"^&+", "", self_ty).split("<")[0] == (b2.impl_self or "").split("<")[0]:
+                                extra |= cg.reachable_from([d2])
+                                more = True
+    sub_reach = set(reach) | set(extra)
+    ctx.analysed["library_bodies_for_cli"] = len(sub_reach)
+    ctx.analysed["library_rendering_bodies"] = len(extra - set(reach))
+    st = State(ctx, lib, cg, sub_reach)
+    st.panic_sites()
+    # loops of the rendering code (everything else is C05's)
+    st2 = State(ctx, lib, cg, set(extra) - set(reach))
+    st2.loops(floor=1)
 
 
 def defining_call(b, op, depth=0):
